@@ -363,3 +363,27 @@ Definition ms_init (keyss : list (list Z)) : mstate :=
 (* participants in redeem-script order for one input: who owns the i-th key of the script *)
 Definition lib_script_owners (keys : list (cosigner * bytes)) (sort_keys : bool) : list Z :=
   map (fun cb => co_who (fst cb)) (lib_wallet_child_order keys sort_keys).
+
+(* ---------- vocabulary of the signature-collection theorems ---------- *)
+Definition ms_mem (k : Z) (S : list Z) : bool := existsb (Z.eqb k) S.
+(* the signatures of the participants in S that own a key of the input, in key order, each carrying its key *)
+Definition ms_sigs_of (keys S : list Z) : list msig := map ms_mk (filter (fun k => ms_mem k S) keys).
+
+(* participants that have called sign() so far (S = those before [ops]) *)
+Fixpoint ms_signers (S : list Z) (ops : list mop) : list Z :=
+  match ops with
+  | [] => S
+  | MSign (Some c) :: r => ms_signers (c :: S) r
+  | _ :: r => ms_signers S r
+  end.
+
+(* the chains covered by m_signers_suffice: hand-offs by object at any time, by dict while at most m
+   signatures have been collected (one input), never by raw *)
+Fixpoint ms_chain_ok (keys : list Z) (m : nat) (S : list Z) (ops : list mop) : bool :=
+  match ops with
+  | [] => true
+  | MSign (Some c) :: r => ms_chain_ok keys m (c :: S) r
+  | MHand HDict :: r => Nat.leb (length (ms_sigs_of keys S)) m && ms_chain_ok keys m S r
+  | MHand HRaw :: r => false
+  | _ :: r => ms_chain_ok keys m S r
+  end.
